@@ -404,7 +404,13 @@ where
             // flip exactly a cell an assertion covers
             let a = &spec.assertions[tape::f("fault.assertion", spec.assertions.len() as u64) as usize];
             let steps = a.steps(n);
-            let step = steps[tape::f("fault.assertion.step", steps.len() as u64) as usize];
+            // first, last or any instance of the assertion (the ends of the progression are where an
+            // off-by-one in the step enumeration hides)
+            let step = match tape::f("fault.assertion.step.class", 3) {
+                0 => steps[0],
+                1 => steps[steps.len() - 1],
+                _ => steps[tape::f("fault.assertion.step", steps.len() as u64) as usize],
+            };
             main[a.column][step] += B::ONE;
             kind_name = "cell_flip_asserted_cell";
         },
@@ -753,7 +759,11 @@ where
         _ => {
             let a = &spec.assertions[tape::f("c29.assertion", spec.assertions.len() as u64) as usize];
             let steps = a.steps(n);
-            let s = steps[tape::f("c29.assertion.step", steps.len() as u64) as usize];
+            let s = match tape::f("c29.assertion.step.class", 3) {
+                0 => steps[0],
+                1 => steps[steps.len() - 1],
+                _ => steps[tape::f("c29.assertion.step", steps.len() as u64) as usize],
+            };
             main[a.column][s] += B::ONE;
             "asserted_cell"
         },
